@@ -30,7 +30,7 @@ ASSUMPTIONS = [
     "the completed configuration compared with cfg/config.json",
 ]
 GATES = {
-    "nan_invalid_disparity": 1, "reference_system_without_authority_code": 1, "validation_step_with_a_suffixed_name_only": 1, "infinite_invalid_disparity": 1, "minus_infinity_invalid_disparity": 1, "two_or_more_bands": 1, "grids": 1, "georeferenced_input": 1, "validation_present": 2,
+    "nan_invalid_disparity": 1, "verbose_command_line_runs": 1, "reference_system_without_authority_code": 1, "validation_step_with_a_suffixed_name_only": 1, "infinite_invalid_disparity": 1, "minus_infinity_invalid_disparity": 1, "two_or_more_bands": 1, "grids": 1, "georeferenced_input": 1, "validation_present": 2,
     "validation_absent": 2, "replayed_configurations": 5, "subprocess_runs": 1, "rasters_compared": 20, "right_input_with_its_own_georeferencing": 1,
     "save_results_on_synthetic_products": 20, "product_heights_around_128_256_512": 5,
 }
@@ -304,7 +304,11 @@ def run_case(case, ctx):
              nontrivial=desc["n_conf_steps"] > 0 or desc["validation"])
     if case["work"] == "sub":
         env = dict(os.environ)
-        proc = subprocess.run([sys.executable, "-m", "pandora.Pandora", cfg_path, out], env=env, capture_output=True, text=True, timeout=900)
+        # every other command-line run is verbose (-v): what is logged must not change what is written
+        verbose = case["i"] % 2 == 1
+        ctx.gate("verbose_command_line_runs", int(verbose))
+        proc = subprocess.run([sys.executable, "-m", "pandora.Pandora", cfg_path, out] + (["-v"] if verbose else []), env=env,
+                              capture_output=True, text=True, timeout=900)
         if proc.returncode != 0:
             ctx.violation("cli-failed", f"console entry point exited {proc.returncode}: {proc.stderr[-600:]}", case, desc=desc)
             return
